@@ -67,31 +67,32 @@ Consume(hd, sg) == /\ handles' = hd /\ stage' = sg /\ i' = i + 1 /\ UNCHANGED se
 Step ==
   /\ i <= Segs[seg].last
   /\ CASE E.ev = "rt.load.unchanged" ->
-            /\ CanStart /\ Has /\ ~handles[P].exited
+            /\ CanStart /\ (IF Has THEN ~handles[P].exited ELSE FALSE)
             /\ Consume(handles, Upd(stage, P, Idle))
        [] E.ev = "rt.load.compile_error" ->
             /\ CanStart
             /\ Consume(handles, Upd(stage, P, Idle))
        [] E.ev = "rt.load.add" ->
-            /\ (CanStart \/ St.st = "adding")
+            /\ St.st \in {"idle", "registered", "adding"}
             /\ Consume(handles, Upd(stage, P, IF E.err THEN Idle ELSE [st |-> "adding", vm |-> ""]))
        [] E.ev = "rt.load.registered" ->
-            /\ (CanStart \/ St.st = "adding")
+            /\ St.st \in {"idle", "registered", "adding"}
             /\ \A q \in Live : handles[q].vm # E.vm                            \* a fresh VM
             /\ Consume(handles, Upd(stage, P, [st |-> "registered", vm |-> E.vm]))
        [] E.ev = "rt.load.closed_old" ->
-            /\ St.st = "registered" /\ Has /\ handles[P].vm = E.vm
+            /\ St.st = "registered" /\ (IF Has THEN handles[P].vm = E.vm ELSE FALSE)
             /\ Consume(handles, Upd(stage, P, [st |-> "closed", vm |-> St.vm]))
        [] E.ev = "rt.load.swapped" ->
-            /\ \/ St.st = "closed"
-               \/ St.st = "registered" /\ (~Has \/ handles[P].exited)            \* no handle, or the previous runtime shut down
+            /\ IF St.st = "registered"
+               THEN (IF Has THEN handles[P].exited ELSE TRUE)    \* no handle, or the previous runtime has shut down
+               ELSE St.st = "closed"
             /\ E.vm = St.vm
             /\ Consume(Upd(handles, P, [vm |-> E.vm, exited |-> FALSE]), Upd(stage, P, Idle))
        [] E.ev = "rt.unload" ->
             /\ Has
             /\ Consume(Del(handles, P), stage)
        [] E.ev = "rt.line.sent" ->
-            /\ Has /\ handles[P].vm = E.vm /\ ~handles[P].exited
+            /\ (IF Has THEN handles[P].vm = E.vm /\ ~handles[P].exited ELSE FALSE)
             /\ Consume(handles, stage)
        [] E.ev = "rt.line.recv" ->
             /\ E.nprogs <= Cardinality(Live)
@@ -103,6 +104,6 @@ Step ==
 TraceSpec == TInit /\ [][Step]_tvars
 
 Reached == (i = Segs[seg].last + 1) => PrintT(<<"CASE", ToJson([accept |-> seg])>>)
-\* diagnosis of a rejected segment: the furthest event consumed
-Furthest == TLCSet(1, IF TLCGet(1) < i THEN i ELSE TLCGet(1))
+\* diagnosis of a rejected segment (run alone): every consumed index is printed, the largest is where it stopped
+Mark == PrintT(<<"CASE", ToJson([seg |-> seg, at |-> i])>>)
 =============================================================================
